@@ -6,6 +6,7 @@ require (
 	git.torproject.org/pluggable-transports/snowflake.git/v2 v2.0.0
 	github.com/pion/sdp/v3 v3.0.5
 	github.com/pion/webrtc/v3 v3.1.41
+	golang.org/x/net v0.0.0-20220425223048-2871e0cb64e4
 	pgregory.net/rapid v1.3.0
 	verif.local/vstat v0.0.0
 )
@@ -28,8 +29,8 @@ require (
 	github.com/pion/turn/v2 v2.0.8 // indirect
 	github.com/pion/udp v0.1.1 // indirect
 	golang.org/x/crypto v0.0.0-20220516162934-403b01795ae8 // indirect
-	golang.org/x/net v0.0.0-20220425223048-2871e0cb64e4 // indirect
 	golang.org/x/sys v0.0.0-20211216021012-1d35b9e2eb4e // indirect
+	golang.org/x/text v0.3.7 // indirect
 )
 
 replace git.torproject.org/pluggable-transports/snowflake.git/v2 => /repo
